@@ -38,6 +38,7 @@ static rc::Gen<KV> gen_c07() {
                 c["inplace"] = num((r >> 16) & 0xff);  // bit i: chunk i in place (AEAD)
                 c["declared"] = num((r >> 4) & 1 ? std::get<4>(t) : ((r >> 5) & 1 ? 32 : 0));
                 c["xmode"] = num((r >> 6) & 1);        // XOF/XOFA with a declared length: 0 = *_fixed, 1 = *_custom("name", custom)
+                c["phase2"] = num((r >> 27) & 3);     // XOF/XOFA/PRF: 1,3 = absorb more after squeezing, then squeeze again (3: with a pad call first)
                 c["pad_at"] = num((r >> 7) & 1 ? ((r >> 24) % 6) : 99);  // XOF/XOFA: ascon_xof(a)_pad before absorb chunk #pad_at
                 return c;
             });
@@ -58,6 +59,7 @@ static bool classify_c07(const KV &c, std::vector<std::string> &tags) {
     if (copy) tags.push_back("copy");
     if (reinit) tags.push_back(iface >= I_ENC128 && tonum(c, "xmode") ? "later-packet-of-a-session" : "reinit-after-use");
     if ((iface == I_XOF || iface == I_XOFA) && tonum(c, "pad_at", 99) < in.size()) tags.push_back("pad-between-absorbs");
+    if ((iface == I_XOF || iface == I_XOFA || iface == I_PRF) && (tonum(c, "phase2") & 1)) tags.push_back("absorb-after-squeeze");
     if ((iface == I_XOF || iface == I_XOFA) && tonum(c, "declared")) tags.push_back(tonum(c, "xmode") ? "xof-variant=custom" : "xof-variant=fixed");
     if (inplace) tags.push_back("in-place");
     tags.push_back("in_chunks:" + num(std::min<size_t>(in.size(), 5)));
@@ -221,10 +223,36 @@ static std::string check_xoflike(const KV &c, int iface) {
         if (have_copy) { Bytes ob = b.squeeze(ch); gotb.insert(gotb.end(), ob.begin(), ob.end()); }
         ++idx;
     }
+    // second phase (XOF, XOFA, PRF): absorbing after squeezing and squeezing again must not depend on how either
+    // phase was split into calls; the reference object makes one call per phase
+    std::string phase2_err;
+    unsigned phase2 = (iface == I_XOF || iface == I_XOFA || iface == I_PRF) ? (unsigned)tonum(c, "phase2") : 0;
+    if (outlen == 0) phase2 = 0;      // with nothing squeezed there is no squeeze call and hence no second phase
+    if (phase2 & 1) {
+        size_t n2 = 1 + junk.size() % 40;
+        XofLike f(iface);
+        f.xmode = xmode;
+        f.init(false, key, custom, declared);
+        f.absorb(data_padded);
+        f.squeeze(outlen);
+        f.absorb(junk);
+        Bytes want2 = f.squeeze(n2);
+        f.free_();
+        if ((phase2 & 2) && a.can_pad()) a.pad();     // in squeeze mode pad only re-enters the absorb phase
+        size_t p2 = 0;
+        // at least one absorb call, as in the reference: the call itself (even an empty one) is what re-enters the absorb phase
+        if (junk_chunks.empty()) a.absorb(Bytes());
+        for (uint64_t ch : junk_chunks) { a.absorb(slice(junk, p2, ch)); p2 += ch; }
+        Bytes got2 = a.squeeze(n2 / 2);
+        Bytes rest = a.squeeze(n2 - n2 / 2);
+        got2.insert(got2.end(), rest.begin(), rest.end());
+        if (got2 != want2) phase2_err = std::string(INAME[iface]) + ": absorb-after-squeeze phase (first phase in " + tostr(c, "in_chunks") + " / out " + tostr(c, "out_chunks") + "; second absorb in " + tostr(c, "junk_chunks") + ") depends on how the calls were split";
+    }
     a.free_();
     if (have_copy) b.free_();
     std::string nm = INAME[iface];
     if (got != want) return nm + ": chunked calls (in " + tostr(c, "in_chunks") + "; out " + tostr(c, "out_chunks") + "; reinit=" + tostr(c, "reinit") + ") differ from the one-shot result: got " + hex(got).substr(0, 64) + " want " + hex(want).substr(0, 64);
+    if (got == want && !phase2_err.empty()) return phase2_err;
     if (have_copy && gotb != want) return nm + ": a copied state (copy_at " + num(copy_at) + (copied_in_squeeze ? ", taken while squeezing" : "") + ") does not continue like its original";
     return "";
 }
